@@ -184,8 +184,35 @@ def judge_pandas(run, spec, table, muts):
     labels = [mi_key(t) if mi else H.norm(t) for t in data.index]
     if len(set(labels)) != len(labels) or any(l is None for l in labels) or \
             (mi and any(x is None for l in table["index"]["levels"] for x in l["values"])):
-        # a cell is identified by (column, row label): needs unique non-null labels
-        run.count("iii:skipped_row_labels_not_unique_or_null")
+        # a cell is identified by (column, row label): with repeated / null labels
+        # only the multiset of reported values per error can be compared
+        run.count("iii:values_only_compared(labels_not_unique_or_null)")
+        mrows, _ = model_cells(v, spec, table)
+        def canon(x):
+            return repr(float(x)) if isinstance(x, (int, float)) and not isinstance(x, bool) else repr(x)
+        want = {k: sorted(canon(c[2]) for c in cs) for k, cs in mrows.items()}
+        got = {}
+        for e in ol.errors:
+            if e.cells is None:
+                continue
+            where = "index" if e.context in ("Index", "MultiIndex") else "column"
+            if e.reason == "DUPLICATES":
+                k = ("DUPLICATES", None, None)
+            elif e.context == "MultiIndex":
+                for _, val, col in e.cells:
+                    got.setdefault((e.reason, col, e.check_index, "index"), []).append(canon(val))
+                continue
+            else:
+                k = (e.reason, e.column, e.check_index, where)
+            got.setdefault(k, []).extend(canon(c[1]) for c in e.cells)
+        got = {k: sorted(x) for k, x in got.items() if x}
+        # null failure cases are dropped from pandas' report when the label is null
+        if any(l is None for l in labels):
+            return
+        if {k: x for k, x in want.items() if x} != got:
+            run.violation("lazy-failure-case-values-differ-from-violating-cells",
+                          C.brief(spec, table, {"model": {str(k): x for k, x in want.items()},
+                                                "report": {str(k): x for k, x in got.items()}}), None)
         return
     mrows, mscal = model_cells(v, spec, table)
     irows, iscal = impl_cells(ol, table, mi, {l: i for i, l in enumerate(labels)})
@@ -281,8 +308,23 @@ def run(run, ctx):
             judge_polars(run, spec, table, muts)
         else:
             spec = G.gen_spec(rng)
+            if spec["kind"] == "frame" and i % 8 == 0:
+                # several frame-level constraints violated at once
+                spec["strict"], spec["ordered"] = True, True
             table = G.gen_table(rng, spec)
             muts = G.mutate(rng, spec, table, k=rng.choice([1, 2, 3, 3]))
+            if spec["kind"] == "frame" and i % 8 == 0 and len(table["columns"]) >= 2 \
+                    and not C.has_dup_labels(table):
+                table["columns"].reverse()
+                n = len(table["columns"][0]["values"])
+                table["columns"].insert(rng.randint(0, len(table["columns"])),
+                                        {"name": "extra", "phys": "float64", "values": [0.5] * n})
+                muts.append(("reverse+extra_col",))
+            if spec["kind"] == "frame" and not spec.get("index") and i % 5 == 1 and table["columns"]:
+                # repeated row labels: offending and conforming rows share a label
+                n = len(table["columns"][0]["values"])
+                table["index"] = {"levels": [{"name": None, "phys": "object",
+                                              "values": [rng.choice(["x", "y"]) for _ in range(n)]}]}
             judge_pandas(run, spec, table, muts)
 
 
